@@ -34,6 +34,9 @@ def run(an: Analysis, rep):
     from .common import SharedRules
     from . import c02
     rep.run(c02.jump_rules, an, SharedRules(rep, "R13.J", "decoded jump targets are the offsets CPython jumps to (shared with C02's R02.3/R02.5): blocks start exactly there"), False)
+    shx = SharedRules(rep, "R13.X", "jump operands are reassembled from all their EXTENDED_ARG prefixes (shared with C02's R02.6/R02.7): a target beyond 65535 still starts a block")
+    rep.run(c02.r026, an, shx)
+    rep.run(c02.r027, an, shx)
     rep.stats.update(an.stats([an.interp("from_code")[0]]))
     rep.assumptions += ["compiler output never jumps into the middle of an EXTENDED_ARG sequence (CPython's assembler targets the first unit)"]
 
@@ -184,11 +187,20 @@ def block_rules(an: Analysis, rep):
     rep.add("R13.4", f"{f.qual}::target replaced by its index in the sorted target list", bool(ok_i), loc(f.module, idx[0]) if idx else loc(f.module, loop2),
             f"`{norm_src(idx[0])}` on the sorted block-start list `{S}`: target k is the k-th block" if ok_i else
             f"jump targets are not replaced by their position in the sorted target list that drives block creation" + ("" if is_sorted else f" (`{S}` is not sorted({T}))"))
-    kw = [k for k in ast.walk(loop2) if isinstance(k, ast.keyword) and k.arg == "target"]
-    ok_k = bool(kw) and idx and any(n is idx[0] for n in ast.walk(kw[0].value)) and any(
-        isinstance(g[0], ast.Call) and "Jump" in {x.id for x in ast.walk(g[0]) if isinstance(x, ast.Name)} for g in guards_of(f.module, f, parent_map(f.module)[id(_stmt_of(f, kw[0]))] if False else _stmt_of(f, kw[0])))
-    rep.add("R13.4", f"{f.qual}::only jump operands are rewritten", bool(ok_k), loc(f.module, kw[0].value) if kw else loc(f.module, loop2),
-            "the rewrite is guarded by isinstance(arg, Jump) and stores the index as Jump.target" if ok_k else "jump rewrite not recognised")
+    # where the index goes: `target=<index>` of a replace(...) / Jump(...) call, or the first positional argument of Jump(...)
+    sites = [k.value for k in ast.walk(loop2) if isinstance(k, ast.keyword) and k.arg == "target"]
+    jump_fields = [fl.name for fl in an.prog.cls("code_data::Jump").fields]
+    for c in ast.walk(loop2):
+        if isinstance(c, ast.Call) and isinstance(c.func, ast.Name) and c.func.id == "Jump" and c.args and jump_fields and jump_fields[0] == "target":
+            sites.append(c.args[0])
+    if idx and not any(any(n is idx[0] for n in ast.walk(sv)) for sv in sites):
+        raise AnalysisError(f"{f.qual}: where the block index `{norm_src(idx[0])}` is stored is not recognised (neither `target=` nor the first argument of Jump(...))")
+    site = next((sv for sv in sites if idx and any(n is idx[0] for n in ast.walk(sv))), None)
+    ok_k = site is not None and any(
+        isinstance(g[0], ast.Call) and "Jump" in {x.id for x in ast.walk(g[0]) if isinstance(x, ast.Name)} for g in guards_of(f.module, f, _stmt_of(f, site)))
+    rep.add("R13.4", f"{f.qual}::only jump operands are rewritten", bool(ok_k), loc(f.module, site) if site is not None else loc(f.module, loop2),
+            "the rewrite is guarded by isinstance(arg, Jump) and stores the index as Jump.target" if ok_k else
+            "the index of the target block is stored without an isinstance(arg, Jump) guard around it: operands that are not jumps are rewritten too")
 
 
 def r135(an: Analysis, rep, rule="R13.5"):
